@@ -57,6 +57,10 @@ def run(rep, tier, seed):
                        "starve the application: peak held bytes / queue length measured after every step")
     SC.model_and_replay(rep, "r", small_read(tier), "c12_r_" + tier, ["HeldBounded", "QueueBounded"], liveness=False, key="read")
     SC.model_and_replay(rep, "w", small_write(tier), "c12_w_" + tier, ["HeldBounded", "QueueBounded"], liveness=False, key="write")
+    from checks.c06 import m2_read, m2_write
+    nt = 3 if tier == "quick" else 12
+    SC.trace_validate(rep, "r", m2_read(tier), "c12_Tr_" + tier, seed + 2, nt, ["HeldBounded", "QueueBounded"], key="read")
+    SC.trace_validate(rep, "w", m2_write(tier), "c12_Tw_" + tier, seed + 2, nt, ["HeldBounded", "QueueBounded"], key="write")
     rs, ws = scale(tier)
     B, Q = 0x20000, 10
     runs = 4 if tier == "quick" else 16
